@@ -25,6 +25,7 @@ pub fn cfg() -> Cfg {
         MatcherKind::FuncDebug,
         MatcherKind::Func,
         MatcherKind::Macro(0),
+        MatcherKind::MacroEq(0),
     ];
     cfg.max_clauses = 6;
     cfg.max_stub_pats = 3;
